@@ -729,7 +729,9 @@ namespace plan
         bool strictRecheck;   // builds paths from individually validated state-to-state motions (not: PDST-style splitters, the
                               // "intermediate states" variants whose vertices are interpolated along a validated motion, multilevel, APS)
         bool bidirectional;
-        bool directedOk;      // may be used on Dubins (directed single-tree growth from the start)
+        bool directedOk;      // direction-aware: may be used on Dubins / Reeds-Shepp. Decided by reading the code: single-tree growth from the start,
+                              // or RRTConnect / BiTRRT (goal-tree motions are checked in the direction the path travels them).
+                              // Not RRT*: its rewiring reuses the neighbour -> new check for the new -> neighbour edge
         bool optimizing;
         bool threaded;        // solve() spawns threads (decided by reading the code)
         double budgetScale;   // evaluation budget multiplier
@@ -790,8 +792,8 @@ namespace plan
         static const std::vector<PlannerInfo> R = {
             {"RRT", mk<og::RRT>, true, false, true, false, false, 1, false, false, false},
             {"RRT(intermediate)", mkRRTi, false, false, true, false, false, 1, false, false, false},
-            {"RRTConnect", mk<og::RRTConnect>, true, true, false, false, false, 1, false, false, true},
-            {"RRTConnect(intermediate)", mkRRTCi, false, true, false, false, false, 1, false, false, true},
+            {"RRTConnect", mk<og::RRTConnect>, true, true, true, false, false, 1, false, false, true},
+            {"RRTConnect(intermediate)", mkRRTCi, false, true, true, false, false, 1, false, false, true},
             {"RRTstar", mk<og::RRTstar>, true, false, false, true, false, 0.5, false, false, false},
             {"InformedRRTstar", mk<og::InformedRRTstar>, true, false, false, true, false, 0.5, false, false, false},
             {"SORRTstar", mk<og::SORRTstar>, true, false, false, true, false, 0.5, false, false, false},
@@ -801,7 +803,7 @@ namespace plan
             {"LazyLBTRRT", mk<og::LazyLBTRRT>, true, false, false, true, false, 0.5, true, false, true},
             {"LazyRRT", mk<og::LazyRRT>, true, false, true, false, false, 1, false, false, false},
             {"TRRT", mk<og::TRRT>, true, false, true, true, false, 1, false, false, false},
-            {"BiTRRT", mk<og::BiTRRT>, true, true, false, false, false, 1, false, false, true},
+            {"BiTRRT", mk<og::BiTRRT>, true, true, true, false, false, 1, false, false, true},
             {"pRRT", mkpRRT, true, false, false, false, true, 1, false, false, false},
             {"EST", mk<og::EST>, true, false, true, false, false, 1, false, false, false},
             {"BiEST", mk<og::BiEST>, true, true, false, false, false, 1, false, false, true},
